@@ -10,7 +10,7 @@ LEVEL = "exploration"
 N = {"quick": 1000, "thorough": 4000}
 RULE = ("cases over <=4 variables with 1-3 alternatives per side, each alternative an interval box (integer / half-integer bounds) along a "
         "distinguished variable plus optional bounds on the others, so that disjoint (gap >= 1), touching, overlapping and empty "
-        "alternatives occur on purpose; operations: constructor with force_empty_intersection, contains_behavior, compound merge, <=; "
+        "alternatives occur on purpose, plus merge operands whose alternatives differ only beyond the 4th significant digit (bounds 100 / 100.04 / 100.08); operations: constructor with force_empty_intersection, contains_behavior, compound merge, <=; "
         "oracle: z3 over disjunctions (a point 'robustly outside' a union violates some term of every alternative by more than the "
         "tolerance); non-trivial = at least 2 alternatives on some side and the operation was judged; distinct = SHA-1 of the case")
 ASSUMPTIONS = ["<= is checked in one direction only (True => containment), as the property states"]
@@ -93,7 +93,27 @@ def _case(draw):
     aa2, ra2 = draw(_family("a", ["b"], disjoint=True))
     g1, _ = draw(_family("x", ["a"], disjoint=False))
     g2, _ = draw(_family("x", ["a"], disjoint=False))
-    return {"op": op, "a1": aa1, "a2": aa2, "g1": g1, "g2": g2, "rel": sorted(set(ra1 + ra2))}
+    rel = sorted(set(ra1 + ra2))
+    alike = draw(st.integers(0, 5))
+    if alike == 0:
+        # guarantee alternatives that differ only beyond the 4th significant digit (they print alike), against a loose one
+        base = float(draw(st.sampled_from([100, 200, 500])))
+        ds = draw(st.permutations([0.0, 0.04, 0.08, 0.3]))[:draw(st.integers(2, 3))]
+        g2 = [[[{"x": 1.0}, base + d], [{"x": -1.0}, 0.0]] for d in ds]
+        g1 = [[[{"x": 1.0}, base + draw(st.sampled_from([1.0, 50.0]))], [{"x": -1.0}, float(draw(st.integers(0, 2)))]]]
+        if draw(st.booleans()):
+            g1, g2 = g2, g1
+        rel.append("print-alike-g")
+    elif alike == 1:
+        # thin disjoint assumption alternatives that print alike
+        base = float(draw(st.sampled_from([100, 200, 500])))
+        offs = draw(st.permutations([0.0, 0.04, 0.08]))[:draw(st.integers(2, 3))]
+        aa2 = [[[{"a": 1.0}, base + d + 0.01], [{"a": -1.0}, -(base + d)]] for d in offs]
+        aa1 = [[[{"a": 1.0}, base + 1.0], [{"a": -1.0}, float(draw(st.integers(0, 2)))]]]
+        if draw(st.booleans()):
+            aa1, aa2 = aa2, aa1
+        rel.append("print-alike-a")
+    return {"op": op, "a1": aa1, "a2": aa2, "g1": g1, "g2": g2, "rel": rel}
 
 
 def strategy(tier):
